@@ -106,6 +106,7 @@ func (r *Result) Finish() int {
 	sort.Strings(order)
 	unlisted := 0
 	knownCounts := map[string]int{}
+	printed := 0
 	for _, sig := range order {
 		vs := bySig[sig]
 		if k, ok := knownBySig[sig]; ok {
@@ -122,8 +123,13 @@ func (r *Result) Finish() int {
 		h := sha256.Sum256(b)
 		path := filepath.Join(dir, hex.EncodeToString(h[:6])+".json")
 		os.WriteFile(path, b, 0o644)
-		fmt.Printf("VIOLATION property=%s replay=%s\n", r.ID, path)
-		fmt.Printf("  sig=%s occurrences=%d detail=%s\n", sig, len(vs), trunc(vs[0].Detail, 600))
+		printed++
+		if printed <= 12 {
+			fmt.Printf("VIOLATION property=%s replay=%s\n", r.ID, path)
+			fmt.Printf("  sig=%s occurrences=%d detail=%s\n", sig, len(vs), trunc(vs[0].Detail, 600))
+		} else if printed == 13 {
+			fmt.Printf("  (further violation signatures are listed in the evidence file and under %s)\n", dir)
+		}
 	}
 	for _, m := range r.Internal {
 		fmt.Printf("INTERNAL property=%s %s\n", r.ID, trunc(m, 2000))
